@@ -12,7 +12,7 @@ import pyerrors as pe
 from .jsonsafe import rat
 
 # ----------------------------------------------------------------------------------------------- layouts
-IDL_CLASSES = ['contig', 'strided', 'gapped', 'irregular']
+IDL_CLASSES = ['contig', 'strided', 'gapped', 'irregular', 'fake_range']
 
 
 def make_idl(rng, cls, n, first=None, step=None, umax=None):
@@ -42,6 +42,22 @@ def make_idl(rng, cls, n, first=None, step=None, umax=None):
             if len(set(d)) == 1:
                 return range(lst[0], lst[-1] + d[0], d[0])
         return [int(x) for x in lst]
+    if cls == 'fake_range':
+        # irregular although first, second and last entry (and the length) are those of a range
+        step = int(rng.integers(2, 5)) if step is None else max(2, step)
+        n = max(n, 5)
+        lst = [first + step * p for p in range(n)]
+        moved = 0
+        for p in rng.permutation(np.arange(2, n - 1)).tolist():
+            if moved >= max(1, n // 4):
+                break
+            shift = int(rng.integers(1, step))
+            if lst[p] + shift < lst[p + 1]:
+                lst[p] += shift
+                moved += 1
+        if moved == 0:
+            lst[2] += 1
+        return [int(x) for x in lst]
     if cls == 'irregular':
         step = 1
         m = n + int(rng.integers(2, n + 2))
@@ -60,7 +76,11 @@ def sub_idl(rng, idl, kind, nmin=5):
     n = len(lst)
     if n <= nmin:
         return idl
-    if kind == 'prefix':
+    if kind == 'window':
+        k = int(rng.integers(nmin, n))
+        a = int(rng.integers(1, n - k + 1))
+        sub = lst[a:a + k]
+    elif kind == 'prefix':
         k = int(rng.integers(nmin, n))
         sub = lst[:k]
     elif kind == 'suffix':
@@ -129,7 +149,7 @@ def grid_idl(rng, n, g, first=None):
     return range(lst[0], lst[-1] + int(d[0]), int(d[0])) if len(set(d)) == 1 else [int(x) for x in lst]
 
 
-LAYOUT_CLASSES = ['same', 'strided', 'gapped', 'overlap', 'replica_subset', 'second_ensemble', 'multi_replica', 'bare_name']
+LAYOUT_CLASSES = ['same', 'strided', 'gapped', 'overlap', 'replica_subset', 'second_ensemble', 'multi_replica', 'bare_name', 'replica_subset_gapped', 'windows']
 
 
 def operand_layouts(rng, cls, k, nmin=5, nmax=24):
@@ -168,6 +188,36 @@ def operand_layouts(rng, cls, k, nmin=5, nmax=24):
                 m = int(rng.integers(1, nrep + 1))
                 reps = sorted(rng.choice(nrep, size=m, replace=False).tolist())
             res.append([('A|r%d' % (r + 1), idls[r]) for r in reps])
+        return res
+    if cls == 'replica_subset_gapped':
+        # operands that lack whole replicas AND are measured on fewer configurations on the replicas they have
+        nrep = int(rng.integers(2, 4))
+        g = int(rng.choice([1, 1, 2]))
+        base = [range(int(rng.integers(1, 10)), int(rng.integers(1, 10)) + 0, 1) for _ in range(nrep)]
+        base = []
+        for _ in range(nrep):
+            first = int(rng.integers(1, 10))
+            base.append(range(first, first + g * int(rng.integers(nmin + 4, nmax + 4)), g))
+        res = []
+        for i in range(k):
+            if i == 0:
+                reps = list(range(nrep))
+            else:
+                m = int(rng.integers(1, nrep + 1))
+                reps = sorted(rng.choice(nrep, size=m, replace=False).tolist())
+            res.append([('A|r%d' % (r + 1), base[r] if (i == 0 or rng.random() < 0.3) else sub_idl(rng, base[r], str(rng.choice(['prefix', 'suffix', 'stride', 'random'])), nmin=nmin))
+                        for r in reps])
+        return res
+    if cls == 'windows':
+        # operands on separated windows of one replica with the same stride and phase (a gap nobody measured in between)
+        step = int(rng.choice([1, 2, 4]))
+        first = int(rng.integers(1, 6))
+        res = []
+        pos = first
+        for i in range(k):
+            n_i = int(rng.integers(nmin, nmax))
+            res.append([('A|r1', range(pos, pos + step * n_i, step))])
+            pos = pos + step * (n_i + int(rng.integers(0, 12)))
         return res
     if cls == 'bare_name':
         # a chain named exactly like its ensemble next to a named replica of the same ensemble
